@@ -162,7 +162,18 @@ fn exec_step(gi: usize, t: usize, s: &Value, tc: &mut ThreadCtx) {
                     Some(x) => {
                         h.uid = x.uid;
                         h.handle = x.handle;
-                        with_under(&under, || drop(x.span));
+                        if s["unwind"].as_bool().unwrap_or(false) {
+                            // fault: the handle is dropped by a panic unwinding through its owner's frame
+                            fault("handle_dropped_by_unwinding");
+                            with_under(&under, || {
+                                let _ = std::panic::catch_unwind(std::panic::AssertUnwindSafe(move || {
+                                    let _owned = x.span;
+                                    panic!("injected panic while a span handle is alive");
+                                }));
+                            });
+                        } else {
+                            with_under(&under, || drop(x.span));
+                        }
                     }
                     None => h.applied = false,
                 }
@@ -190,7 +201,24 @@ fn exec_step(gi: usize, t: usize, s: &Value, tc: &mut ThreadCtx) {
                     let (uid, id, d) = tc.entered.remove(pos);
                     h.uid = uid;
                     h.id = id.into_u64();
-                    with_under(&under, || d.exit(&id));
+                    if s["unwind"].as_bool().unwrap_or(false) {
+                        // fault: the span is exited by a guard that is dropped while a panic unwinds
+                        fault("exit_by_unwinding");
+                        struct ExitOnDrop<'a>(&'a Dispatch, &'a tracing_core::span::Id);
+                        impl Drop for ExitOnDrop<'_> {
+                            fn drop(&mut self) {
+                                self.0.exit(self.1);
+                            }
+                        }
+                        with_under(&under, || {
+                            let _ = std::panic::catch_unwind(std::panic::AssertUnwindSafe(|| {
+                                let _g = ExitOnDrop(&d, &id);
+                                panic!("injected panic while a span is entered");
+                            }));
+                        });
+                    } else {
+                        with_under(&under, || d.exit(&id));
+                    }
                 }
             }
             "current" => {
@@ -369,7 +397,7 @@ impl Engine for RegistryEngine {
         let mut rng = Rng::new(g.seed);
         let prop = g.prop.as_str();
         let thorough = g.tier == "thorough";
-        let sync = prop == "C05" && rng.chance(1, 2);
+        let sync = if prop == "C05" { rng.chance(1, 2) } else { rng.chance(1, 4) };
         let nthreads = if sync { rng.range(2, 3) } else { rng.range(1, 3) };
         let probe_f2 = g.mode == "probe:F2";
         let f10_guard = finding_open("F10");
@@ -454,7 +482,11 @@ impl Engine for RegistryEngine {
                     }
                     34..=52 => {
                         has[slot] = false;
-                        json!({"t": t, "op": "drop", "slot": slot})
+                        if rng.chance(1, 6) {
+                            json!({"t": t, "op": "drop", "slot": slot, "unwind": true})
+                        } else {
+                            json!({"t": t, "op": "drop", "slot": slot})
+                        }
                     }
                     53..=70 => {
                         // C06 excludes re-entering a span that is already entered on the same thread
@@ -474,7 +506,11 @@ impl Engine for RegistryEngine {
                             let sl = entered[tt][idx];
                             let pos = entered[tt].iter().rposition(|x| *x == sl).unwrap();
                             entered[tt].remove(pos);
-                            json!({"t": t, "op": "exit", "idx": idx})
+                            if rng.chance(1, 6) {
+                                json!({"t": t, "op": "exit", "idx": idx, "unwind": true})
+                            } else {
+                                json!({"t": t, "op": "exit", "idx": idx})
+                            }
                         }
                     }
                     85..=89 => {
@@ -488,10 +524,12 @@ impl Engine for RegistryEngine {
                     }
                     _ => {
                         if prop == "C06" {
+                            // under seeded schedules each trace slot belongs to one thread
+                            let own: Vec<u64> = (0..4u64).filter(|x| !sync || x % nthreads == t).collect();
                             match rng.below(5) {
-                                0 => json!({"t": t, "op": "trace_capture", "tr": rng.below(4)}),
-                                1 => json!({"t": t, "op": "trace_walk", "tr": rng.below(4)}),
-                                2 => json!({"t": t, "op": "trace_drop", "tr": rng.below(4)}),
+                                0 => json!({"t": t, "op": "trace_capture", "tr": *rng.pick(&own)}),
+                                1 => json!({"t": t, "op": "trace_walk", "tr": *rng.pick(&own)}),
+                                2 => json!({"t": t, "op": "trace_drop", "tr": *rng.pick(&own)}),
                                 _ => json!({"t": t, "op": "event", "site": rng.below(20), "parent": *rng.pick(&[-1i64, -1, -2, slot as i64])}),
                             }
                         } else {
